@@ -38,12 +38,20 @@ namespace Prng
 structure Prim (σ : Type) where
   /-- `random.seed(s)` -/
   pySeed : Nat → σ
-  /-- `random.randint(0, 2**k-1)`: the value drawn and the successor state -/
-  pyDraw : σ → Nat × σ
+  /-- `random.randint(0, 2**bits-1)`: the value drawn and the successor state -/
+  pyDraw : Nat → σ → Nat × σ
   /-- `numpy.random.seed(v)` -/
   npSeed : Nat → σ
-  /-- `numpy.random.Generator(BitGenerator(v))` -/
-  genSeed : Nat → σ
+  /-- `numpy.random.Generator(BitGenerator(v))`; the first argument numbers the bit generator class
+      (0 = PCG64, the default; MT19937, Philox, SFC64, PCG64DXSM …) -/
+  genSeed : Nat → Nat → σ
+
+/-- the rarely used arguments of `spawn(n, BitGenerator, sbits)`: which bit generator class, how many seed
+    bits are drawn from the python stream per new generator (defaults: PCG64, 64) -/
+structure SOpt where
+  bg : Nat := 0
+  bits : Nat := 64
+  deriving DecidableEq, Repr
 
 /-- the `rng` argument of a call -/
 inductive RngArg where
@@ -191,6 +199,19 @@ def use {σ ο} (c : Cls σ ο) (k : Nat) (st : St σ) : Option (ο × St σ) :=
         (fun r => (r.1.1, { r.2 with objs := r.2.objs.set k ⟨ob.arg, true, upd c.cached ob.priv r.1.2⟩ }))
     else none
 
+/-- `obj2 = copy.deepcopy(obj)` / `obj.deepcopy()` / `copy.copy(obj)` on the k-th object, as the library
+    defines it for its stochastic protocols ("rng should not be copied"): the duplicate is a NEW object that
+    holds the SAME generator handle and a copy of the private state.  No stream is read or written. -/
+def copyObj {σ} (k : Nat) (st : St σ) : Option (St σ) :=
+  (st.objs[k]?).map (fun ob => { st with objs := st.objs ++ [ob] })
+
+/-- the WRONG way of duplicating (seeded change C08-d3, `rng = copy.deepcopy(self.rng)`): the duplicate gets a
+    private CLONE of the state of the generator its original holds (of the numpy global when that is `None`)
+    as private state — state that `seed()` no longer reaches -/
+def copyCloned {σ} (k : Nat) (st : St σ) : Option (St σ) :=
+  (st.objs[k]?).bind (fun ob =>
+    (getGen st ob.arg).map (fun g => { st with objs := st.objs ++ [⟨ob.arg, ob.alive, g.getD st.np⟩] }))
+
 /-! ### seed and spawn (prng.py l.121-173) -/
 
 /-- `py_random.seed(s); numpy.random.seed(py_random.randint(0, 2**32-1))`.
@@ -199,45 +220,49 @@ def use {σ ο} (c : Cls σ ο) (k : Nat) (st : St σ) : Option (ο × St σ) :=
     re-seeding with their private state (that is what makes them dangerous). -/
 def seed {σ} (P : Prim σ) (s : Nat) (st : St σ) : St σ :=
   let py0 := P.pySeed s
-  let d := P.pyDraw py0
+  let d := P.pyDraw 32 py0
   { st with py := d.2, np := P.npSeed d.1, spawned := [], objs := st.objs.map ObjSt.reseed }
 
-/-- `[Generator(BitGenerator(py_random.randint(0, 2**sbits-1))) for _ in range(n)]` -/
-def spawnGo {σ} (P : Prim σ) : Nat → σ → List σ × σ
+/-- `[Generator(BitGenerator(py_random.randint(0, 2**sbits-1))) for _ in range(n)]`
+    (`spawn(None, …)` is the case `n = 1` returned without the list) -/
+def spawnGo {σ} (P : Prim σ) (o : SOpt) : Nat → σ → List σ × σ
   | 0, py => ([], py)
   | n+1, py =>
-    let d := P.pyDraw py
-    let r := spawnGo P n d.2
-    (P.genSeed d.1 :: r.1, r.2)
+    let d := P.pyDraw o.bits py
+    let r := spawnGo P o n d.2
+    (P.genSeed o.bg d.1 :: r.1, r.2)
 
-def spawn {σ} (P : Prim σ) (n : Nat) (st : St σ) : List σ × St σ :=
-  let r := spawnGo P n st.py
+def spawn {σ} (P : Prim σ) (o : SOpt) (n : Nat) (st : St σ) : List σ × St σ :=
+  let r := spawnGo P o n st.py
   (r.1, { st with py := r.2, spawned := st.spawned ++ r.1 })
 
 /-! ### programs -/
 
 inductive Op (σ ο : Type) where
   | seed (s : Nat)
-  | spawn (n : Nat)
+  | spawn (n : Nat) (o : SOpt)
   | call (c : Comp σ ο) (arg : RngArg)
   | new (c : Cls σ ο) (arg : RngArg)
   | use (c : Cls σ ο) (k : Nat)
   | setrng (c : Cls σ ο) (k : Nat) (arg : RngArg)
+  | copy (k : Nat)
 
 /-- observable result of an operation (for `spawn`: the states of the new generators) -/
 inductive Out (σ ο : Type) where
   | seeded
   | gens (g : List σ)
   | val (o : ο)
+  | copied
   deriving DecidableEq, Repr
 
 def step {σ ο} (P : Prim σ) : Op σ ο → St σ → Option (Out σ ο × St σ)
   | .seed s, st => some (.seeded, seed P s st)
-  | .spawn n, st => let r := spawn P n st; some (.gens r.1, r.2)
+  | .spawn n o, st => let r := spawn P o n st; some (.gens r.1, r.2)
   | .call c arg, st => (call c arg st).map (fun r => (.val r.1, r.2))
   | .new c arg, st => (new c arg st).map (fun r => (.val r.1, r.2))
   | .use c k, st => (use c k st).map (fun r => (.val r.1, r.2))
   | .setrng c k arg, st => (setRng c k arg st).map (fun r => (.val r.1, r.2))
+  | .copy k, st => (copyObj k st).map (fun r => (.copied, r))
 
 /-- run a program; `none` when some call names a generator that does not exist -/
 def run {σ ο} (P : Prim σ) : List (Op σ ο) → St σ → Option (List (Out σ ο) × St σ)
@@ -270,6 +295,7 @@ def Op.usesExt {σ ο} : Op σ ο → Bool
 def Op.usesObj {σ ο} : Op σ ο → Bool
   | .use _ _ => true
   | .setrng _ _ _ => true
+  | .copy _ => true
   | _ => false
 
 /-! ### static analysis of programs with long-lived objects
@@ -289,6 +315,7 @@ structure AObj where
 def absStep {σ ο} : Op σ ο → List AObj → List AObj
   | .new _ arg, h => h ++ [⟨arg, true⟩]
   | .setrng _ k arg, h => h.set k ⟨arg, true⟩
+  | .copy k, h => h ++ (h[k]?).toList
   | _, h => h
 
 /-- a `cached` method is only called on an object whose private state is clean -/
@@ -448,7 +475,11 @@ def fromRows {σ ο} (rows : List Row) : Op σ ο → Prop
     "np" a call of `numpy.random.<fn>` (legacy global stream), "npref" a reference to such a function,
     "py" the `random` module, "gprng" a use of `global_prng` other than the sanctioned default
     `if rng is None: rng = global_prng`, "gprng-default" that default, "os" OS entropy
-    (`default_rng()`, `SeedSequence()`, `RandomState()`, `os.urandom`, `secrets`, `uuid`), "time" a clock —
+    (`default_rng()`, `SeedSequence()`, `RandomState()`, `os.urandom`, `secrets`, `uuid`; `id()` / `hash()` flowing
+    into a seed), "time" a clock flowing into a seed, and three kinds about HANDING ON a generator:
+    "rng-unused" a function with an `rng` parameter that never reads it, "rng-dropped" a call made with
+    `rng = None` / `rng = global_prng` where a generator is in scope (the D12 shape), "rng-omitted" a
+    stochastic class constructed without any generator where one is in scope (the D12d shape) —
     `what` the callee, `count` how often in that function, `reached` the rows (indices into the
     measured dependency table) during whose measurement the function was executed -/
 structure Site where
@@ -458,6 +489,10 @@ structure Site where
   what : String
   count : Nat
   reached : List Nat
+  /-- the function only ever runs as part of a plug-in operator of a third-party framework: a method of a
+      pybrops class deriving from a pymoo operator base class, or a module-level helper referenced only from
+      such classes (decided by the AST scan) -/
+  opScope : Bool := false
   deriving DecidableEq, Repr
 
 /-- the global stream a site of this kind addresses is in the measured set of the row — in BOTH
@@ -469,14 +504,17 @@ def Site.inMeasuredSet (s : Site) (r : Row) : Bool :=
   else if s.kind == "py" then r.glob.py && (!r.accepts || r.expl.py)
   else false
 
-/-- allow-list entries are (kind, module) pairs generated from the `finding:` lines; kind "static"
-    allows every site of the module -/
-def Site.allowed (allow : List (String × String)) (s : Site) : Bool :=
-  allow.any (fun a => (a.1 == s.kind || a.1 == "static") && a.2 == s.module)
+/-- allow-list entries `(kind, module, function)` are generated from the `finding:` lines:
+    `(kind, module, "")` — a finding about the custom plug-in operators of a module — covers the sites of
+    that kind in operator scope ONLY (a new reader in another function of the same module is not covered);
+    `("static", module, function)` covers every site of that one function -/
+def Site.allowed (allow : List (String × String × String)) (s : Site) : Bool :=
+  allow.any (fun a => a.2.1 == s.module
+    && ((a.1 == s.kind && a.2.2 == "" && s.opScope) || (a.1 == "static" && a.2.2 == s.func)))
 
 /-- the obligation on one site: sanctioned default, allow-listed, or executed during the measurement
     of a component whose measured dependency set contains the stream it addresses -/
-def Site.covered (table : List Row) (allow : List (String × String)) (s : Site) : Bool :=
+def Site.covered (table : List Row) (allow : List (String × String × String)) (s : Site) : Bool :=
   s.kind == "gprng-default" || s.allowed allow
   || s.reached.any (fun i => match table[i]? with
       | some r => s.inMeasuredSet r
@@ -484,7 +522,7 @@ def Site.covered (table : List Row) (allow : List (String × String)) (s : Site)
 
 /-- a `seed` that only seeds the `random` module (mutant of prng.py l.137) -/
 def seedPyOnly {σ} (P : Prim σ) (s : Nat) (st : St σ) : St σ :=
-  { st with py := (P.pyDraw (P.pySeed s)).2, spawned := [] }
+  { st with py := (P.pyDraw 32 (P.pySeed s)).2, spawned := [] }
 
 /-- the row measured for `SubsetGeneticAlgorithm.minimize` on the unchanged tree (D11): numpy
     global + OS entropy, the `rng` argument is never used -/
@@ -505,8 +543,8 @@ def selectRowAsMeasured : Row :=
 def mix (a b : Nat) : Nat := (a * 6364136223846793005 + b * 1442695040888963407 + 1013904223) % 18446744073709551616
 
 def toyPrim : Prim Nat :=
-  { pySeed := fun s => mix s 11, pyDraw := fun x => (mix x 12 % 4294967296, mix x 13),
-    npSeed := fun v => mix v 14, genSeed := fun v => mix v 15 }
+  { pySeed := fun s => mix s 11, pyDraw := fun bits x => (mix (mix x 12) bits % 2 ^ (min bits 64), mix x 13),
+    npSeed := fun v => mix v 14, genSeed := fun bg v => mix (mix v 15) bg }
 
 /-- generic component: the result mixes every visible stream, and every visible stream advances
     to a state that depends on all visible streams (as a data-dependent number of draws would) -/
